@@ -193,7 +193,8 @@ class SessionSpec:
 
 
 class UdpWorld:
-    def __init__(self, env: SimEnv, cfg: dict, addons: Optional[list] = None, logger=None):
+    def __init__(self, env: SimEnv, cfg: dict, addons: Optional[list] = None, logger=None,
+                 addon_paths: Optional[list] = None, mtime_of=None):
         import hippolyzer.lib.proxy.sessions as sessions_mod
         import hippolyzer.lib.proxy.addons as addons_mod
         from hippolyzer.lib.proxy.addons import AddonManager
@@ -220,7 +221,10 @@ class UdpWorld:
         if cfg.get("builtin_addons"):
             from hippolyzer.apps.proxy import AgentUpdaterAddon, SelectionManagerAddon
             addons += [SelectionManagerAddon(), AgentUpdaterAddon()]
-        AddonManager.init([], self.sm, addon_objects=addons)
+        if mtime_of is not None:
+            # virtual file times for file-based addons (the seam the reloader reads the disk through)
+            env._patch(addons_mod, "get_mtime", mtime_of)
+        AddonManager.init(list(addon_paths or []), self.sm, addon_objects=addons)
         self.server = SLSOCKS5Server(self.sm)
         self._addons_mod = addons_mod
 
